@@ -2897,6 +2897,9 @@ func (fr *Frame) call(st *State, x *ssa.Call) bool {
 				fr.assume(st, fmt.Sprintf("(forall ((%s Int)) (! (=> (and (<= 0 %s) (< %s %s)) (= (%s %s %s (+ %s %s)) (%s %s %s %s))) :pattern ((%s %s %s %s))))",
 					q3, q3, q3, lb, ef, name, res, la, q3, ef, arr, b.T, q3, ef, arr, b.T, q3))
 			}
+			// and the first appended element as a ground fact (append(xs, v) has no earlier read of the argument array that
+			// could trigger the quantified form)
+			fr.assume(st, fmt.Sprintf("(=> (> %s 0) (= (%s %s %s %s) (%s %s %s 0)))", lb, ef, st.heap[key], res, la, ef, arr, b.T))
 			setRes(Val{res, x.Type()})
 		case "delete":
 			mt := x.Call.Args[0].Type().Underlying().(*types.Map)
